@@ -228,7 +228,6 @@ def binary_irrev_cstr(t, k, r, p, fr, fp, fv, n=1, backend=None):
     # Post processed using sympy's cse function.
     # (see _derive_analytic_cstr_bireac.ipynb)
     be = get_backend(backend)
-    atanh = getattr(be, "atanh", None) or be.arctanh
     three = 3 * be.cos(0)
 
     x0 = 1 / k
@@ -238,7 +237,11 @@ def binary_irrev_cstr(t, k, r, p, fr, fp, fv, n=1, backend=None):
     x4 = be.sqrt(fv + x3)
     x5 = x1 * x4
     x6 = x1 * x4 / 2
-    x7 = atanh((-(fv ** (three / 2)) * x4 - 4 * k * r * x5) / (fv ** 2 + fv * x3))
+    x7 = (-(fv ** (three / 2)) * x4 - 4 * k * r * x5) / (fv ** 2 + fv * x3)
+    # tanh(t*x6 - atanh(x7)) by the addition formula: real also when abs(x7) >= 1,
+    # i.e. when the initial concentration is at or above its steady state value.
+    x14 = be.tanh(t * x6)
+    x15 = (x14 - x7) / (1 - x7 * x14)
     x8 = fv * t
     x9 = fp * x2
     x10 = 4 * k * n
@@ -246,13 +249,13 @@ def binary_irrev_cstr(t, k, r, p, fr, fp, fv, n=1, backend=None):
     x12 = be.exp(x8)
     x13 = n * x12
     return (
-        x0 * (-fv + x5 * be.tanh(t * x6 - x7)) / 4,
+        x0 * (-fv + x5 * x15) / 4,
         x0
         * (
             fv * x13
             + 8 * k * p
             + r * x10
-            - x1 * x13 * x4 * be.tanh(x6 * (t - 2 * x7 / (x1 * x4)))
+            - x1 * x13 * x4 * x15
             + x11 * x12
             - x11
             + x12 * x9
